@@ -33,7 +33,7 @@ pub fn convert_glob_to_pattern(s: &str) -> String {
         .to_string()
     });
 
-    format!("^(?i){}$", string)
+    format!("^(?is){}$", string)
 }
 
 pub fn convert_like_to_pattern(s: &str) -> String {
@@ -62,5 +62,5 @@ pub fn convert_like_to_pattern(s: &str) -> String {
         .to_string()
     });
 
-    format!("^(?i){}$", string)
+    format!("^(?is){}$", string)
 }
